@@ -17,7 +17,9 @@ CROSS = {"C01-C": ["C08"], "C08-C": ["C02", "C06"], "C16-C": ["C04"], "C05-C": [
          # round 4 (G, H)
          "C07-G": ["C01"], "C06-H": ["C04"], "C02-G": ["C04"], "C12-G": ["C13"], "C13-H": ["C12"], "C19-H": ["C07"], "C03-H": ["C12"],
          # round 5 (I, J)
-         "C04-J": ["C19"], "C10-I": ["C04", "C16"], "C16-J": ["C04", "C10"], "C04-I": ["C10", "C16"], "C12-I": ["C13"], "C07-I": ["C19"]}
+         "C04-J": ["C19"], "C10-I": ["C04", "C16"], "C16-J": ["C04", "C10"], "C04-I": ["C10", "C16"], "C12-I": ["C13"], "C07-I": ["C19"],
+         # round 6 (K, L)
+         "C01-K": ["C17"], "C02-K": ["C06", "C17"], "C02-L": ["C10", "C17"], "C16-L": ["C04"], "C04-K": ["C10", "C16"], "C19-K": ["C04"]}
 THOROUGH_ONLY = {("C16-B", "C16"), ("C16-D", "C16")}
 # C19-E / C19-F change the refinement functions themselves (the subject of C08 / C07),
 # which C19 takes as given (it checks that each iteration uses the refinement of the previous result)
